@@ -1,7 +1,7 @@
 #!/venv/bin/python
 """Copy confirmed seeded changes from the sub-agents' output directories into /verif/seeded/<Cxx-k>/.
 
-usage: tools/seed_keep.py /tmp/seed            (looks for Cxx.out/{patchK.diff,demoK.py,metaK.json,confirmK.txt})
+usage: tools/seed_keep.py /tmp/seed [id-offset]   (looks for Cxx.out/{patchK.diff,demoK.py,metaK.json,confirmK.txt})
 A change is kept only if its confirmation line says: clean HOLDS, patched VIOLATED, tests '1 failed, 40 passed'
 with tests/test_propagation.py::test_propagate as the only failure.
 """
@@ -9,6 +9,7 @@ import glob, json, os, re, shutil, sys
 
 VERIF = os.path.dirname(os.path.dirname(os.path.abspath(__file__)))
 src = sys.argv[1]
+offset = int(sys.argv[2]) if len(sys.argv) > 2 else 0     # round 2: ids continue after the first round (k + 3)
 kept = 0
 for out in sorted(glob.glob(os.path.join(src, "C??*.out"))):
     pid = os.path.basename(out)[:-4]
@@ -22,12 +23,14 @@ for out in sorted(glob.glob(os.path.join(src, "C??*.out"))):
             and "1 failed, 40 passed" in line[0] and "failed=[FAILED tests/test_propagation.py::test_propagate ]" in line[0]
         if not ok:
             print(f"{pid}-{k}: NOT confirmed: {line}"); continue
-        d = os.path.join(VERIF, "seeded", f"{pid}-{k}")
+        kk = str(int(k) + offset) if k.isdigit() else k
+        d = os.path.join(VERIF, "seeded", f"{pid}-{kk}")
         os.makedirs(d, exist_ok=True)
         shutil.copy(patch, os.path.join(d, "patch.diff"))
         shutil.copy(os.path.join(out, f"demo{k}.py"), os.path.join(d, "demo.py"))
         meta = json.load(open(os.path.join(out, f"meta{k}.json")))
         meta["confirmed"] = line[0].split(" ", 1)[1]
+        meta["round"] = 2 if offset else 1
         meta["origin"] = "written by an independent sub-agent that saw only the property text and a scratch worktree"
         json.dump(meta, open(os.path.join(d, "meta.json"), "w"), indent=1)
         kept += 1
